@@ -1,6 +1,7 @@
 import VermouthProps.C16Total
 import VermouthProps.C16Model
 import VermouthProps.C16Merge
+import VermouthProps.C16Conserv
 import Generated.C16LayoutX
 /-!
 # C16 — atoms without position, charges, CRYST1, MODEL: the full model on the extracted layout
@@ -95,6 +96,28 @@ theorem pdb_atom_roundtrip_nopos (excl : List (List Char)) (serial : Nat) (a : A
   · rcases halt with halt | halt <;>
       simp [pdbAtomOfPropsX, parseCharge, Props.isNan, Props.str, Props.int, Props.dec, Props.get, List.find?, halt,
         hex, he, bind, Except.bind, pure, Except.pure]
+
+/-! ## the full reader on written files -/
+
+/-- the record names the base model ignores are bound to `_skip` in the class body as extracted -/
+theorem base_skip_ok : baseSkipOk pdbX := by unfold baseSkipOk; decide
+
+/-- **whole-file PDB round trip for the FULL reader** (`pdb_file_roundtrip` carried over by
+`readPdbX_conservative`): for every system that `Fits`, whatever `modelidx`, the text of
+`write_pdb_string(system, conect=False)` is read back by the complete reader model (MODEL, CRYST1,
+nan, charges, merging CONECT all switched on) as exactly the system, no bonds, no box, no charge,
+no not-a-number coordinate. -/
+theorem pdb_file_roundtrip_full (excl : List (List Char)) (sys : List Mol) (modelidx : Int)
+    (hfits : Fits excl sys = true) :
+    ∃ lines, writePdb pdb false sys = .ok lines ∧
+      readPdbX pdbX excl false modelidx lines = .ok ((expectedMols pAtomOf 1 sys).map liftMol) := by
+  obtain ⟨lines, r, hw, hr, hm, hb⟩ := pdb_file_roundtrip excl sys hfits
+  refine ⟨lines, hw, ?_⟩
+  have := readPdbX_conservative pdbX base_skip_ok excl false modelidx lines r hr
+  rw [this]
+  unfold liftResult
+  rw [hm, hb]
+  rfl
 
 /-! ## examples evaluated on the extracted tables -/
 
